@@ -1419,14 +1419,17 @@ impl<'a> Engine<'a> {
     /// C09 / C10 / C02: consume an iterator through std adaptor and consumer methods (nth, skip,
     /// step_by, last, fold, count, for_each, take, by_ref) instead of a plain `next()` loop.
     fn op_adaptor<F: Fam, const N: usize>(&mut self, s: &mut Sut<F, N>) {
-        use crate::common::{drive, STYLES};
+        use crate::common::{drive_pre, STYLES};
         let kind = self.rng.usize_below(9);
         let kname = ["iter", "keys", "values", "iter_mut", "values_mut", "drain", "into_iter", "into_keys", "into_values"][kind];
         let style = 1 + self.rng.usize_below(STYLES.len() - 1);
         let len = s.model.len();
         let j = self.rng.usize_below(len + 2);
-        self.step("adaptor", || format!("{}().{} j={}", kname, STYLES[style], j));
-        self.fp_step(s, O_ADAPT, (kind * 1000 + style * 50 + j) as u32, 0);
+        // half of the probes first step the iterator `pre` times with next() (up to and beyond its end)
+        let pre = if self.rng.chance(1, 2) { 0 } else { self.rng.usize_below(len + 2) };
+        self.step("adaptor", || format!("{}().{} j={} after {} next() calls", kname, STYLES[style], j, pre));
+        self.fp_step(s, O_ADAPT, (kind * 1000 + style * 50 + j) as u32, pre as u64);
+        if pre >= len && len > 0 && !self.light { self.cx.rep.hit(&format!("adaptor-on-exhausted:{}", kname)); }
         if !self.light { self.cx.rep.hit(&format!("adaptor:{}:{}", kname, STYLES[style])); }
         // identities in the order of a plain iter() walk: (class, kid, vid)
         let reference: Vec<(u32, u64, u64, u32)> = s.fr.get().iter().map(|(k, v)| (k.class(), k.id(), v.id(), v.payload())).collect();
@@ -1438,32 +1441,32 @@ impl<'a> Engine<'a> {
         let counted: Option<usize>;
         match kind {
             0 => {
-                let (items, pos, c) = drive(s.fr.get().iter(), style, j, len);
+                let (items, pos, c) = drive_pre(s.fr.get().iter(), pre, style, j, len);
                 got.extend(items.iter().map(|(k, v)| { k.chk("adaptor key"); v.chk("adaptor value"); (k.class(), k.id() ^ v.id().rotate_left(17)) }));
                 positions = pos; counted = c;
             }
             1 => {
-                let (items, pos, c) = drive(s.fr.get().keys(), style, j, len);
+                let (items, pos, c) = drive_pre(s.fr.get().keys(), pre, style, j, len);
                 got.extend(items.iter().map(|k| { k.chk("adaptor key"); (k.class(), k.id()) }));
                 positions = pos; counted = c;
             }
             2 => {
-                let (items, pos, c) = drive(s.fr.get().values(), style, j, len);
+                let (items, pos, c) = drive_pre(s.fr.get().values(), pre, style, j, len);
                 got.extend(items.iter().map(|v| { v.chk("adaptor value"); (v.payload(), v.id()) }));
                 positions = pos; counted = c;
             }
             3 => {
-                let (items, pos, c) = drive(s.fr.get_mut().iter_mut(), style, j, len);
+                let (items, pos, c) = drive_pre(s.fr.get_mut().iter_mut(), pre, style, j, len);
                 got.extend(items.iter().map(|(k, v)| { k.chk("adaptor key"); v.chk("adaptor value"); (k.class(), k.id() ^ v.id().rotate_left(17)) }));
                 positions = pos; counted = c;
             }
             4 => {
-                let (items, pos, c) = drive(s.fr.get_mut().values_mut(), style, j, len);
+                let (items, pos, c) = drive_pre(s.fr.get_mut().values_mut(), pre, style, j, len);
                 got.extend(items.iter().map(|v| { v.chk("adaptor value"); (v.payload(), v.id()) }));
                 positions = pos; counted = c;
             }
             5 => {
-                let (items, pos, c) = drive(s.fr.get_mut().drain(), style, j, len);
+                let (items, pos, c) = drive_pre(s.fr.get_mut().drain(), pre, style, j, len);
                 got.extend(items.iter().map(|(k, v)| { k.chk("adaptor key"); v.chk("adaptor value"); (k.class(), k.id() ^ v.id().rotate_left(17)) }));
                 positions = pos; counted = c;
                 drop(items);
@@ -1479,17 +1482,17 @@ impl<'a> Engine<'a> {
                 let map = s.fr.take();
                 match kind {
                     6 => {
-                        let (items, pos, c) = drive(map.into_iter(), style, j, len);
+                        let (items, pos, c) = drive_pre(map.into_iter(), pre, style, j, len);
                         got.extend(items.iter().map(|(k, v)| { k.chk("adaptor key"); v.chk("adaptor value"); (k.class(), k.id() ^ v.id().rotate_left(17)) }));
                         positions = pos; counted = c;
                     }
                     7 => {
-                        let (items, pos, c) = drive(map.into_keys(), style, j, len);
+                        let (items, pos, c) = drive_pre(map.into_keys(), pre, style, j, len);
                         got.extend(items.iter().map(|k| { k.chk("adaptor key"); (k.class(), k.id()) }));
                         positions = pos; counted = c;
                     }
                     _ => {
-                        let (items, pos, c) = drive(map.into_values(), style, j, len);
+                        let (items, pos, c) = drive_pre(map.into_values(), pre, style, j, len);
                         got.extend(items.iter().map(|v| { v.chk("adaptor value"); (v.payload(), v.id()) }));
                         positions = pos; counted = c;
                     }
@@ -2099,11 +2102,102 @@ impl<'a> Engine<'a> {
         self.conservation::<F>(total, "after step");
     }
 
+    /// The states a history starts from are not only `Map::new()`: every constructor gives a reachable
+    /// state (`default`, `with_capacity`, `From<[(K, V); N]>` with and without repeated keys, `from_iter`).
+    /// The model follows the documented bulk semantics (first key object stays, last value wins).
+    fn construct<F: Fam, const N: usize>(&mut self, s: &mut Sut<F, N>) {
+        let which = self.rng.usize_below(4);
+        let name = ["Map::default", "Map::with_capacity", "Map::from(array)", "Map::from_iter"][which];
+        self.step("construct", || format!("{}()", name));
+        if !self.light { self.cx.rep.hit(&format!("construct:{}:{}", name, if N == 0 { "N=0" } else { "N>0" })); }
+        let old = s.fr.take();
+        drop(old);
+        let mut model = Dict::new(N);
+        let mut pairs: Vec<(u32, u32, u32)> = Vec::new(); // class, tag, payload
+        let count = match which {
+            2 => N,
+            3 => if N == 0 { 0 } else { self.rng.usize_below(2 * N + 2) },
+            _ => 0,
+        };
+        for _ in 0..count {
+            let mut class = <F::K as KeyF>::norm(1 + self.rng.below(u64::from(self.universe)) as u32);
+            if model.find(class).is_none() && model.is_full() {
+                // from_iter must not overflow here (that is C03's business): repeat a present class instead
+                class = model.ents[self.rng.usize_below(model.len())].class;
+            }
+            let (tag, payload) = (self.h.tag(), self.h.payload());
+            pairs.push((class, tag, payload));
+            if model.find(class).is_none() {
+                model.push(Ent { class, tag, kid: 0, vid: 0, payload });
+            }
+        }
+        let mut items: Vec<(F::K, F::V)> = pairs.iter().map(|(c, t, p)| (F::K::mk(*c, *t), F::V::mk(*p))).collect();
+        // identities: first key object of a class, last value object of a class
+        for (i, (c, _, p)) in pairs.iter().enumerate() {
+            let e = model.get_mut(*c).expect("class was pushed");
+            if e.kid == 0 && e.tag == pairs[i].1 {
+                e.kid = items[i].0.id();
+            }
+            e.vid = items[i].1.id();
+            e.payload = *p;
+        }
+        let built: Caught<Map<F::K, F::V, N>> = fault::catch(|| match which {
+            0 => Map::default(),
+            1 => Map::with_capacity(N),
+            2 => {
+                let mut it = items.drain(..);
+                let arr: [(F::K, F::V); N] = core::array::from_fn(|_| it.next().expect("N items were prepared"));
+                drop(it);
+                Map::from(arr)
+            }
+            _ => items.drain(..).collect(),
+        });
+        match built {
+            Caught::Ok(m) => {
+                s.fr.put(m);
+                s.model = model;
+            }
+            Caught::Panic(msg) => {
+                self.h.viol("C01", "constructor-panics", format!("{} over {:?} (class, tag, value) panicked: {}", name, pairs, msg));
+                self.h.viol("C16", "constructor-panics", format!("{} over {:?} panicked: {}", name, pairs, msg));
+                s.fr.put(Map::new());
+                s.model = Dict::new(N);
+                self.h.failed = true;
+                return;
+            }
+            Caught::Injected(..) => unreachable!(),
+        }
+        self.sweep(s);
+        self.wellformed(s, "after construction");
+    }
+
     pub fn run_history<F: Fam, const N: usize>(&mut self, max_steps: usize) {
         ledger::reset();
         self.h.live_base = F::live_objects().unwrap_or(0);
         let mut suts: Vec<Sut<F, N>> = vec![Sut::new()];
         self.sweep(&mut suts[0]);
+        if N <= 32 && self.rng.chance(1, 2) {
+            if let Caught::Panic(msg) = fault::catch(|| self.construct::<F, N>(&mut suts[0])) {
+                let text = format!("observing a freshly constructed map panicked: {}", msg);
+                self.h.viol("C01", "unexpected-panic", text.clone());
+                if self.cx.prop != "C01" {
+                    let p = self.cx.prop.clone();
+                    self.h.viol(&p, "unexpected-panic", text);
+                }
+                for mut s in suts.drain(..) {
+                    s.fr.forget();
+                }
+                let ops = self.h.ops.clone();
+                let (hist, fam) = (self.h.hist, F::NAME);
+                let mem_prop = crate::common::mem_prop(&self.cx.prop);
+                self.cx.rep.absorb_violations(mem_prop, &|| {
+                    let mut v = vec![format!("history {} family={} N={}", hist, fam, N)];
+                    v.extend(ops.iter().cloned());
+                    v
+                });
+                return;
+            }
+        }
         if N > 32 {
             // large capacities: start from a nearly full map (a random history alone rarely climbs beyond
             // a few dozen entries), so that slots beyond the 32nd / 64th are in play
@@ -2185,6 +2279,107 @@ impl<'a> Engine<'a> {
     }
 }
 
+/// Maps whose PAIR type is zero-sized (`Map<Z, (), N>`): every pointer into the slot array is the same
+/// address, so cursor arithmetic (`ptr.add(len) == ptr`) cannot tell "nothing left" from "everything
+/// left".  With `Z == Z` answering false every insert appends, so the map holds several zero-sized
+/// pairs.  Each finding is reported for every property whose statement it contradicts.
+pub fn zst_pair_probe(cx: &mut Ctx, hist: u64) {
+    use support::elems::{z_live, z_set_eq, Z};
+    fn pv(props: &[&str], what: &str, msg: String) {
+        let (_, _, op) = ledger::ctx();
+        for p in props {
+            ledger::violation(p, format!("zst-pairs:{}@{}", what, op), msg.clone());
+        }
+    }
+    let mut rng = cx.hist_rng(hist ^ 0x2057_0A17);
+    let base = z_live();
+    let r = fault::catch(|| {
+        z_set_eq(false);
+        let k = 1 + rng.usize_below(4);
+        let fill = |n: usize| {
+            let mut m: Map<Z, (), 4> = Map::new();
+            for _ in 0..n {
+                m.insert(Z::new(), ());
+            }
+            m
+        };
+        ledger::set_ctx(hist, 1, "len/iter(zero-sized pairs)");
+        let mut m = fill(k);
+        if m.len() != k || m.iter().count() != k || m.iter().len() != k || m.keys().count() != k || m.values().len() != k || m.iter_mut().count() != k || m.values_mut().count() != k {
+            pv(&["C01", "C05", "C09"], "len-vs-iteration", format!("{} zero-sized pairs inserted: len() = {}, iter().count() = {}, iter().len() = {}, keys {} values {} iter_mut {} values_mut {}", k, m.len(), m.iter().count(), m.iter().len(), m.keys().count(), m.values().len(), m.iter_mut().count(), m.values_mut().count()));
+        }
+        ledger::set_ctx(hist, 2, "drain(zero-sized pairs)");
+        let j = rng.usize_below(k + 1);
+        {
+            let mut d = m.drain();
+            let announced = d.len();
+            let mut got = 0;
+            for _ in 0..j {
+                if d.next().is_some() {
+                    got += 1;
+                }
+            }
+            let left = d.len();
+            let rest = d.count();
+            if announced != k || got != j || left != k - j || rest != k - j {
+                pv(&["C10", "C01", "C09"], "drain", format!("drain() of {} zero-sized pairs: len() {} at the start, {} of {} next() calls yielded, len() {} afterwards, count() of the rest {}", k, announced, got, j, left, rest));
+            }
+        }
+        if !m.is_empty() || m.iter().next().is_some() {
+            pv(&["C10", "C01"], "drain-not-empty", format!("after drain() the map of zero-sized pairs has len() = {}", m.len()));
+        }
+        if z_live() != base {
+            pv(&["C02", "C10"], "drain-conservation", format!("{} zero-sized keys alive after a complete drain of {} pairs (expected 0)", z_live() - base, k));
+        }
+        drop(m);
+        ledger::set_ctx(hist, 3, "into_iter(zero-sized pairs)");
+        let (a, b, c) = (fill(k).into_iter().count(), fill(k).into_keys().count(), fill(k).into_values().count());
+        let mut it = fill(k).into_iter();
+        let l0 = it.len();
+        let first = it.next().is_some();
+        let l1 = it.len();
+        drop(it);
+        if a != k || b != k || c != k || l0 != k || !first || l1 != k - 1 {
+            pv(&["C10"], "into_iter", format!("{} zero-sized pairs: into_iter().count() = {}, into_keys {}, into_values {}, len() {} then {} after one next()", k, a, b, c, l0, l1));
+        }
+        ledger::set_ctx(hist, 4, "retain/clone/clear(zero-sized pairs)");
+        let mut m = fill(k);
+        let mut calls = 0;
+        let keep = rng.usize_below(k + 1);
+        m.retain(|_, _| {
+            calls += 1;
+            calls <= keep
+        });
+        if calls != k || m.len() != keep {
+            pv(&["C01"], "retain", format!("retain over {} zero-sized pairs keeping the first {} verdicts: {} predicate calls, len() = {}", k, keep, calls, m.len()));
+        }
+        let c = m.clone();
+        if c.len() != m.len() || c.iter().count() != m.len() {
+            pv(&["C15"], "clone", format!("clone of {} zero-sized pairs has len() = {} and yields {}", m.len(), c.len(), c.iter().count()));
+        }
+        drop(c);
+        m.clear();
+        if !m.is_empty() {
+            pv(&["C01"], "clear", format!("clear() leaves len() = {}", m.len()));
+        }
+        drop(m);
+        if z_live() != base {
+            pv(&["C02"], "conservation", format!("{} zero-sized keys alive after every container was dropped", z_live() - base));
+        }
+    });
+    z_set_eq(true);
+    if let Caught::Panic(msg) = r {
+        let p = cx.prop.clone();
+        pv(&["C01", &p], "unexpected-panic", format!("an operation on a map of zero-sized pairs panicked: {}", msg));
+    }
+    cx.rep.hit("zst-pairs");
+    cx.rep.evaluations += 1;
+    if ledger::viol_total() > 0 {
+        let p = crate::common::mem_prop(&cx.prop);
+        cx.rep.absorb_violations(p, &|| vec![format!("zero-sized pair probe, history {}", hist)]);
+    }
+}
+
 /// C19: maps whose VALUE type is zero-sized (`Map<u32, (), N>`, `Map<Z, (), N>`) must still render as
 /// maps (`key: ()` entries), in the plain and the alternate form.
 pub fn unit_value_fmt_probe(cx: &mut Ctx, hist: u64) {
@@ -2261,8 +2456,15 @@ pub fn history<F: Fam, const N: usize>(cx: &mut Ctx, hist: u64, mut rng: Rng, ma
     };
     e.light = e.cx.args.flag("light");
     e.h.retag_unchecked = e.cx.prop == "C18";
+    if e.cx.prop == "C01" {
+        // C01 lists drain among its operations: the pairs a drain hands back are its return value
+        e.h.dual.push(("C10", "drain", "C01"));
+    }
     e.run_history::<F, N>(max_steps);
     if prop == "C19" && hist % 16 == 0 {
         unit_value_fmt_probe(cx, hist);
+    }
+    if F::NAME == "zst" && hist % 4 == 0 && matches!(prop.as_str(), "C01" | "C02" | "C05" | "C09" | "C10" | "C15") {
+        zst_pair_probe(cx, hist);
     }
 }
